@@ -294,9 +294,10 @@ class Fn:
 
     def loc(self, bi, si=None):
         blk = self.blocks[bi]
+        file = blk.get("file") or self.b["loc"]["file"]
         if si is None or si == "term":
-            return "%s:%d" % (self.b["loc"]["file"], blk["term"]["line"])
-        return "%s:%d" % (self.b["loc"]["file"], blk["stmts"][si]["line"])
+            return "%s:%d" % (file, blk["term"]["line"])
+        return "%s:%d" % (file, blk["stmts"][si]["line"])
 
     # ------------------------------------------------------------ expressions
     def expr_of_operand(self, o, depth=0, at=None):
@@ -735,6 +736,9 @@ def decision_paths(fn, limit=400):
                 return ("agg", rv["adt"] + "::" + rv["variant"], {names[i] if i < len(names) else str(i): o for i, o in enumerate(ops)})
             if k == "tuple":
                 return ("tuple", tuple(ops))
+            if k == "closure":
+                names = rv.get("fields", [])
+                return ("closure", rv.get("closure"), {names[i] if i < len(names) else str(i): o for i, o in enumerate(ops)})
             return ("aggx", k, tuple(ops))
         return ("rvx", str(rv)[:60])
 
